@@ -800,7 +800,7 @@ func TestProp(t *testing.T) {
 	})
 
 	// 3. invalid files
-	r.Rule("invalid: a valid model plus one structural defect {libdefaults line without '=', realm line without '=', domain_realm line without '=', unpaired '}' at section level of [realms], closing brace of a realm dropped, closing brace of a nested block dropped, unparsable boolean / duration / integer / integer list}; the reference reader must reject the file too; every such file is non-trivial")
+	r.Rule("invalid: a valid model plus one structural defect {libdefaults line without '=', realm line without '=', line without '=' inside a block nested in a realm, domain_realm line without '=', unpaired '}' at section level of [realms], closing brace of a realm dropped, closing brace of a nested block dropped, unparsable boolean / duration / integer / integer list}; the reference reader must reject the file too; every such file is non-trivial")
 	inv := invalidGrid(r.Seed())
 	evid.Parallel(len(inv), 16, func(i int) { judge("invalid-grid", inv[i], nil) })
 	r.Rapid("invalid", r.N(1500, 20000), func(t *rapid.T) {
